@@ -210,6 +210,23 @@ def run(ctx):
     ctl = sum(1 for (b, _) in predf.values() for c in b.calls() if c.callee_q and re.search(SRC, c.callee_q))
     res.check(ctl >= 4, "R17.1", "control|who-may-call-finds-fish-sources", fish_gen.where(), "positive control: %d sources reachable from Fish::generate" % ctl,
               "positive control failed: reachability query finds no sources from Fish::generate")
+    # ---- R17.3 an escaped string is never cut or edited afterwards: escaping maps one character to a multi-character sequence
+    # (`'` -> `''`, `'\\''`, `\\'` ...); truncating, popping or slicing the ESCAPED text can split such a sequence and leave a lone quote
+    CUT = r"String::(truncate|pop|remove|drain|replace_range|split_off|retain)$|^str::(split_at|split_at_mut|get|get_unchecked)$|str::char_indices$|Iterator>?::(take|nth|skip|step_by)$|str::(trim_end_matches|trim_start_matches|strip_suffix|strip_prefix)$"
+    ncut = 0
+    for shell, (modrx, floor) in SHELLS.items():
+        for b in fx.bodies(modrx):
+            top = b
+            while top.kind == "Closure" and top.parent is not None:
+                top = top.parent
+            in_esc = re.search(r"escape", top.q.rsplit("::", 1)[1]) is not None
+            for c in b.calls_to(CUT):
+                if not in_esc and not (c.args and re.search(r"escape_\w+\(", expr(b, c.args[0]))):
+                    continue
+                ncut += 1
+                res.violation("R17.3", "cut-after-escape|%s|%s" % (shell, top.q.rsplit("::", 1)[1]), c.where(),
+                              "%s applies %s inside an escaping helper: the escaped text is cut or edited after its quotes were doubled/escaped, which can split an escape sequence (a lone quote ends the literal and the rest of the description becomes script)" % (top.q, c.callee_q.rsplit("::", 1)[1]))
+    res.ok("R17.3", "no-cut-after-escape", "clap_complete / clap_complete_nushell", "escaping helpers only map characters (%d cutting operations found)" % ncut)
     res.note("strflow stats %s" % sf.stats)
 
 
